@@ -373,6 +373,13 @@ def make_endpoint_aio(sx, who, server, trace, loop, opts=None, url="ws://localho
         def onMessage(self, payload, isBinary):
             trace.append((who, "msg", payload, isBinary))
 
+        def onPing(self, payload):
+            trace.append((who, "ping", payload))
+            base.onPing(self, payload)
+
+        def onPong(self, payload):
+            trace.append((who, "pong", payload))
+
         def onClose(self, wasClean, code, reason):
             trace.append((who, "close", wasClean, code, reason))
 
@@ -415,3 +422,30 @@ def open_pair_aio(sx, trace=None, server_opts=None, client_opts=None, protocols=
     deliver_aio(s, loop, concat(c.t.take()))
     deliver_aio(c, loop, concat(s.t.take()))
     return loop, trace, s, c, rnd
+
+
+def open_one_aio(sx, server, opts=None, trace=None):
+    """a single real asyncio-adapter endpoint brought to OPEN by a canned peer handshake"""
+    import base64
+    import hashlib
+    loop = setup_asyncio()
+    trace = Trace() if trace is None else trace
+    rnd = patch_env_aio(sx)
+    who = "S" if server else "C"
+    ep, f = make_endpoint_aio(sx, who, server, trace, loop, opts)
+    ep.p.connection_made(ep.t)
+    run_loop(loop)
+    key = base64.b64encode(_FIXED_KEY)
+    if server:
+        hs = (b"GET / HTTP/1.1\r\nHost: localhost:9000\r\nUpgrade: websocket\r\nConnection: Upgrade\r\n"
+              b"Sec-WebSocket-Key: " + key + b"\r\nSec-WebSocket-Version: 13\r\n\r\n")
+    else:
+        ep.t.take()
+        acc = base64.b64encode(hashlib.sha1(key + b"258EAFA5-E914-47DA-95CA-C5AB0DC85B11").digest())
+        hs = (b"HTTP/1.1 101 Switching Protocols\r\nUpgrade: websocket\r\nConnection: Upgrade\r\n"
+              b"Sec-WebSocket-Accept: " + acc + b"\r\n\r\n")
+    ep.p.data_received(hs)
+    run_loop(loop)
+    ep.t.take()
+    del trace[:]
+    return loop, trace, ep, rnd
